@@ -30,7 +30,7 @@ Lemma no_other_demotion b a te :
 Proof.
   intros C S G. destruct te as [t e]. destruct e; try reflexivity.
   unfold other_demotion, cause_rules in *. cbn [snd] in *. cbv zeta in G. rewrite C, S in G. cbn [zmem existsb negb] in G.
-  apply app_nil_l2 in G. destruct G as [G1 G]. apply app_nil_l2 in G. destruct G as [G2 G3].
+  apply app_nil_l2 in G. destruct G as [G1 G]. apply app_nil_l2 in G. destruct G as [G2 G]. apply app_nil_l2 in G. destruct G as [G3 _].
   apply pwhen_nil in G1. apply pwhen_nil in G2. apply pwhen_nil in G3.
   rewrite Bool.andb_true_r in G1, G2.
   match goal with |- ?p && ?q = false => destruct p eqn:Hd; [|reflexivity] end.
